@@ -78,4 +78,26 @@ theorem C10_text (head : List BlankLine) (items : List FullText.Item) (h : FullT
     parseAsm (FullText.render head items) = .ok (items.map (fun x => x.stmt.node)) :=
   parse_full head items h
 
+open Asm.Layout Asm.ExprText Asm.FullText in
+-- non-vacuity of `C10_text`: a program with a macro definition (local label, nested invocation with a `$variable` and a
+-- call as arguments), an expression-macro definition and a directive with an escaped quote is well formed
+-- `%macro m(x)` / ` a:` / ` %inner($x, f(1))` / `%end` ; `%def f(p)` / `$p+1` / `%end` ; `%include("a\"b")`
+example : FullText.WF []
+    [⟨[], .macroDef [32] ⟨[109], [], [([], [120], [])]⟩ [] none false []
+        [⟨[32], .label [97] [], [], none, false, []⟩,
+         ⟨[32], .invoke [105, 110, 110, 101, 114] [] (.some [] (.mk (.var [120]) .nil) []
+            (.cons [32] (.mk (.call [102] [] (.some [] (.mk (.num .dec [49]) .nil) [] .nil)) .nil) [] .nil)), [], none, false, []⟩] [],
+      .line [] none false []⟩,
+     ⟨[], .exprDef [32] ⟨[102], [], [([], [112], [])]⟩ [] false [] (.mk (.var [112]) (.cons [] .plus [] (.num .dec [49]) .nil)) [] false [],
+      .line [] none false []⟩,
+     ⟨[], .directive .include [] [] [.plain 97, .quote, .plain 98] [], .open_ [] none⟩] := by
+  refine ⟨(by intro b hb; cases hb), ?_, ?_⟩
+  · intro x hx
+    simp only [List.mem_cons, List.mem_nil_iff, or_false] at hx
+    rcases hx with rfl | rfl | rfl <;>
+      simp [FullText.Stmt.WF, Layout.IsBlanks, ExprText.IsBlanks, Layout.Term.WF, Decl.WF, IsFnName, IsParam, BLine.WF, BStmt.WF,
+        ExprText.IsLabel, XArgs.WF, XMore.WF, XSeq.WF, XRest.WF, XTerm.WF, PChar.WF, reservedPrefix, isAlpha, isAlnum, toDigit,
+        Radix.minDigits, Radix.base, IsCommentBody] <;> decide
+  · simp [FullText.OpenOnlyLast, Layout.Term.isOpen]
+
 end EtkVerif.C10
